@@ -1129,6 +1129,7 @@ def join(
 
     if left._cache.backend != right._cache.backend:
         raise TypeError("cannot join two tables with different backends")
+    check_same_database(left, right, "join")
 
     if left._cache.partition_by:
         raise ValueError(f"cannot join grouped table `{left._ast.short_name()}`")
@@ -1395,6 +1396,7 @@ def _union_impl(
 
     if left._cache.backend != right._cache.backend:
         raise TypeError("cannot union two tables with different backends")
+    check_same_database(left, right, "union")
 
     if left._cache.partition_by:
         raise ValueError(f"cannot union grouped table `{left._ast.short_name()}`")
@@ -1616,6 +1618,14 @@ def ast_repr(table: Table, verb_depth: int = 7, expr_depth: int = 2, *, pipe: bo
 
     print(table._ast.ast_repr(verb_depth, expr_depth), end="")
     return table if pipe else None
+
+
+def check_same_database(left: Table, right: Table, verb: str):
+    from pydiverse.transform._internal.backend.sql import SqlImpl, get_engine
+
+    # one SELECT statement can only be executed on one database
+    if issubclass(left._cache.backend, SqlImpl) and get_engine(left._ast).url != get_engine(right._ast).url:
+        raise TypeError(f"cannot {verb} two tables from different databases")
 
 
 def preprocess_arg(arg: ColExpr, table: Table, *, agg_is_window: bool = True) -> Any:
